@@ -32,18 +32,31 @@ DEFAULT_KINDS = (
 
 def base_record(opts):
     """opts: dict of generator choices (all concrete)"""
-    o = dict(desc=False, dep=False, default=0, recursion=0, schema_def=False, present=0xFF, mutation=True)
+    o = dict(desc=False, dep=False, default=0, recursion=0, schema_def=False, present=0xFF, mutation=True, roots=0)
     o.update(opts)
+    # roots: 0 as given by schema_def; 2 schema definition with SWAPPED conventional names; 3 schema definition that lists only the
+    # query root although a type named Mutation exists; 4 as 3 plus `extend schema { mutation: Mutation }`
+    if o["roots"] >= 2:
+        o["schema_def"], o["mutation"] = True, True
     d = (lambda s: s) if o["desc"] else (lambda s: None)
     dep = (lambda s: s) if o["dep"] else (lambda s: None)
     qname = "RootQ" if o["schema_def"] else "Query"
     mname = "RootM" if o["schema_def"] else "Mutation"
+    if o["roots"] == 2:
+        qname, mname = "Mutation", "Query"
+    elif o["roots"] >= 3:
+        qname, mname = "Query", "Mutation"
     label, dtype, dlit, dval = DEFAULT_KINDS[o["default"]]
     if label == "object-nested":
         o["recursion"] = max(o["recursion"], 2)         # the nested input type In2 must exist
     has = lambda bit: bool(o["present"] >> bit & 1)   # noqa: E731
     rec = {"order": [], "types": {}, "directives": {}, "roots": {"query": qname, "mutation": mname if o["mutation"] else None, "subscription": None},
-           "schema_def": o["schema_def"]}
+           "schema_def": o["schema_def"], "schema_ext": None}
+    if o["roots"] == 3:
+        rec["roots"]["mutation"] = None                      # the type named Mutation is an ordinary type
+    elif o["roots"] == 4:
+        rec["roots"]["mutation"] = None
+        rec["schema_ext"] = {"mutation": "Mutation"}          # ... until a schema extension makes it the mutation root
 
     def add(name, t):
         rec["types"][name] = t
@@ -76,6 +89,8 @@ def base_record(opts):
     add("B", {"kind": "object", "desc": None, "interfaces": [], "fields": bfields})
     if o["mutation"]:
         add(mname, {"kind": "object", "desc": None, "interfaces": [], "fields": [{"name": "m", "type": "Int", "args": [], "desc": None, "dep": None}]})
+        if o["roots"] >= 3:
+            qfields.append({"name": "mm", "type": "Mutation", "args": [], "desc": None, "dep": None})       # keep the ordinary type reachable
     if has(1):
         add("U", {"kind": "union", "desc": d("a union"), "members": ["A", "B"]})
         qfields.append({"name": "u", "type": "U", "args": [], "desc": None, "dep": None})
@@ -185,6 +200,8 @@ def render(rec, split=None, order="as-is", ext_first=False):
     if rec["schema_def"]:
         ops = " ".join("%s: %s" % (op, tn) for op, tn in rec["roots"].items() if tn)
         defs.insert(0, "schema { %s }" % ops)
+    if rec.get("schema_ext"):
+        exts.append("extend schema { %s }" % " ".join("%s: %s" % kv for kv in rec["schema_ext"].items()))
     if order == "reversed":
         defs = list(reversed(defs))
         exts = list(reversed(exts)) if False else exts          # extension blocks keep their relative (document) order
@@ -197,6 +214,7 @@ def render(rec, split=None, order="as-is", ext_first=False):
 def base_only(rec, split):
     """the record of the base definitions alone (what ignore_extensions=True must build)"""
     r = copy.deepcopy(rec)
+    r["schema_ext"] = None
     for name, mode in (split or {}).items():
         if name not in r["types"]:
             continue
@@ -236,6 +254,8 @@ def _coerced_default(rec, a):
 def normal(rec):
     """normal form of a record, comparable with snapshot(schema)"""
     out = {"types": {}, "directives": {}, "roots": dict(rec["roots"])}
+    for op, tn in (rec.get("schema_ext") or {}).items():
+        out["roots"][op] = tn
     for name, t in rec["types"].items():
         k = t["kind"]
         n = {"kind": k, "desc": t.get("desc")}
